@@ -19,7 +19,7 @@ func init() {
 		ID:    "C14",
 		Title: "Target files decode to exactly the targets they describe, independently",
 		Explanation: "DECIDED (borrow/alias, dominance and table rules): defaults-borrowed (in both targeter closures the value slices of the default header map and the default body are borrowed: nothing derived from them is the first operand of append, stored through, sorted, or reachable through the target's header map by a later append on the same key; copies clear the taint) — this is 'decoding a later target never changes an earlier one nor the defaults' for all inputs and spare capacities; merge-order (default header values are written before the target's own on every path; the default body is set first and overwritten only when the target brings its own); header-case (C06 who-may-call rule on the parsers); target JSON codec (encoder keys = decoder cases = Target's tags, inverse copying method pairs, omitempty guards only on tagged fields, every field handled by encoder, decoder and Target.Equal; method and url checks dominate the success return); exhaustion (ErrNoTargets exactly on the end-of-input edges; ReadAllTargets uses a fresh Target per call, keeps every decoded target and stops only on ErrNoTargets). " +
-			"NOT DECIDED: that the http line grammar (peeked lines, comments, blank lines) maps every well-formed document to the described targets — a language-level behavioural claim.",
+			"NOT DECIDED: that the http line grammar (peeked lines, comments, blank lines) as a whole maps every well-formed document to the described targets — a language-level behavioural claim; only the necessary conditions listed under ALSO DECIDED (a body line ends the block, a comment never hides the next request line) are decided.",
 		Assumptions: []string{"append with sufficient spare capacity writes in place (Go slice semantics)"},
 		MinObs:      20,
 		Run:         runC14,
